@@ -291,10 +291,11 @@ PROPS["C05"] = {
     "quick": {"shards": 4, "budget_s": 25, "watchdog_s": 900, "parallel": 4},
     "thorough": {"shards": 4, "budget_s": 420, "watchdog_s": 3600, "parallel": 4},
     "floor": {"quick": 200, "thorough": 5000},
-    "require_counters": {"quick": {"job_executions_compared": 5000, "jobs_with_20_or_more_names": 100, "child_processes_completed": 100},
+    "require_counters": {"quick": {"job_executions_compared": 5000, "jobs_with_20_or_more_names": 100, "child_processes_completed": 100, "jobs_with_sibling_fb_io_bindings": 100},
                          "thorough": {"job_executions_compared": 200000}},
     "rule": "job = (sources, input+clock trace): programs with 12-21 shuffled names of every kind (enums, structs, functions, FBs with strings, interfaces + classes with methods, 3 tasks incl. an "
-            "event task), the C11 seed programs, and random generator programs (core and extended); 4-6 cycles. Each job runs in P processes (4 quick / 16 thorough) x {run 1, run 2, second "
+            "event task), programs with 3-8 sibling plus nested FB instances whose types declare AT %I/%Q/%M variables on shared addresses (binding registration order reaches the container and "
+            "decides which writer wins), the C11 seed programs, and random generator programs (core and extended); 4-6 cycles. Each job runs in P processes (4 quick / 16 thorough) x {run 1, run 2, second "
             "thread}. distinct = hash of the sources; non-trivial = compiled, >= 2 processes produced output, all runs compared",
     "level_text": "For every job all P x 3 executions must produce the same STBC byte hash+length and the same per-cycle digest sequence of (storage walk by name path, drained runtime events, "
                   "output image, error). std's RandomState differs per process and per thread, so any HashMap-ordered emission or iteration that reaches an observable would differ.",
